@@ -34,6 +34,8 @@ var c11Fragments = []struct{ name, src string }{
 	// operator calls on union receivers, both variant orders (the result type is merged from two declarations)
 	{"union-operator", "zqo = true ? \"zz\" : 7\nzqo * 2\nzqi = true ? 7 : \"zz\"\nzqi * 2\nzqf = true ? 1.5 : 2\nzqf + 1"},
 	{"union-method", "zqo = true ? \"zz\" : [1]\nzqo.length\nzqo.to_s\nzqi = true ? {a: 1} : \"s\"\nzqi.to_s\nzqi.inspect"},
+	// indexing a union-typed / untyped local (an expression that only resolves in a later round)
+	{"index-union-local", "zqfu = [[1, 2], nil].first\nzqfv = zqfu[0]\nzqfw = [{a: 1}, nil].first\nzqfx = zqfw[:a]"},
 }
 
 // c11DefRe finds the names a program defines: `def name`, `def self.name`, `name =`, `|name|` / `|a, name|`.
